@@ -49,7 +49,7 @@ for pid, mod in [("C01", "round trip: token-sequence equality after rebuild"), (
 checks = []
 for p in props:
     pid = p["id"]
-    if pid not in CHECKS or pid == "C18":
+    if pid not in CHECKS:
         continue
     ref, tech, text, note = CHECKS[pid]
     checks.append({
